@@ -71,7 +71,15 @@ func Now() Time {
 		return time.Unix(0, simrt.Epoch+noSim).UTC()
 	}
 	v := s.Tick()
-	return time.Unix(0, simrt.Epoch+local(simrt.CurProc(), v)).UTC()
+	p := simrt.CurProc()
+	l := local(p, v)
+	if p != nil {
+		if l <= p.LastLocal && p.Offset == p.LastOffset {
+			l = p.LastLocal + 1
+		}
+		p.LastLocal, p.LastOffset = l, p.Offset
+	}
+	return time.Unix(0, simrt.Epoch+l).UTC()
 }
 
 // Since mirrors time.Since.
